@@ -283,7 +283,8 @@ theorem merge_spec (rm : RM) (a b : Nat) :
     (rm.merge a b).1.waiting = rm.waiting ∧ (rm.merge a b).1.inited = rm.inited ∧
       (rm.merge a b).1.pools = rm.pools := by
   unfold RM.merge
-  split <;> exact ⟨rfl, rfl, rfl⟩
+  split <;> try split
+  all_goals exact ⟨rfl, rfl, rfl⟩
 
 /-- Every operation only appends to the waiting list. -/
 theorem apply_waiting (rm : RM) (op : RMOp) :
